@@ -362,8 +362,9 @@ def kani_unit(name, cfg, repo, build, tier, prop=None):
                 rc, out, err = sh(cmd, cwd=scratch, env=env, timeout=h.get('timeout', 1800))
             except subprocess.TimeoutExpired:
                 return dict(h, rc=None, result='TIMEOUT', wall=time.time() - t1, checks=0, failed_checks=[], out='')
-            m = re.search(r'VERIFICATION:- (\w+)', out)
-            result = m.group(1) if m else 'NO-RESULT'
+            # `--harness` matches by substring: should several harnesses have run, any failure counts
+            allres = re.findall(r'VERIFICATION:- (\w+)', out)
+            result = ('FAILED' if 'FAILED' in allres else allres[0]) if allres else 'NO-RESULT'
             if re.search(r'\*\* 0 of \d+ failed', out) and h.get('should_panic'): pass
             mm = re.search(r'\*\* (\d+) of (\d+) failed', out)
             nchecks = int(mm.group(2)) if mm else 0
